@@ -398,12 +398,15 @@ func (reader *DataReader) next() ([]byte, *DataPos, error) {
 		off := int64(reader.blockID) * blockSize
 		// 当前 block 起始位置已到达或越过文件末尾
 		if off >= fileSize {
+			// 未读到完整记录: 游标退回该记录的起始位置, 即最后一条完整记录的末尾
+			reader.blockID, reader.offset = pos.BlockID, pos.Offset
 			return nil, nil, io.EOF
 		}
 		// 当前 block 实际大小
 		size := uint32(min(fileSize-off, blockSize))
 
 		if reader.offset >= size {
+			reader.blockID, reader.offset = pos.BlockID, pos.Offset
 			return nil, nil, io.EOF
 		}
 
@@ -418,6 +421,7 @@ func (reader *DataReader) next() ([]byte, *DataPos, error) {
 		if err != nil {
 			// chunk 超出文件末尾, 说明末尾记录未完整写入(如断电), 视为日志到此结束
 			if err == ErrIncompleteChunk && off+int64(size) >= fileSize {
+				reader.blockID, reader.offset = pos.BlockID, pos.Offset
 				return nil, nil, io.EOF
 			}
 			return nil, nil, err
@@ -441,6 +445,11 @@ func (reader *DataReader) next() ([]byte, *DataPos, error) {
 	pos.Size = cnt*chunkHeaderSize + uint32(len(res))
 
 	return res, pos, nil
+}
+
+// Offset 返回游标的文件偏移量; 读到 io.EOF 之后即最后一条完整记录的末尾
+func (reader *DataReader) Offset() int64 {
+	return int64(reader.blockID)*blockSize + int64(reader.offset)
 }
 
 func (df *DataFile) Size() int64 {
